@@ -48,4 +48,66 @@ mutual
     | k :: rest => noCol k && noColL rest
 end
 
+/-! ## Levels: the nodes at one depth, in document order, with their byte offsets -/
+
+mutual
+  /-- Nodes at depth `d` below `t` (laid out at `off`), in document order. -/
+  def levelList (t : Tree) (off d : Nat) : List (Nat × Tree) :=
+    match d with
+    | 0 => [(off, t)]
+    | d + 1 => match t with
+      | .mk _ ks => levelKids ks off d
+  def levelKids (ks : List Tree) (off d : Nat) : List (Nat × Tree) :=
+    match ks with
+    | [] => []
+    | k :: rest => levelList k off d ++ levelKids rest (off + k.totalBytes) d
+end
+
+def sumTb : List Tree → Nat
+  | [] => 0
+  | k :: rest => k.totalBytes + sumTb rest
+
+mutual
+  /-- Byte tiling: every inner node's total equals the sum of its children's totals (what
+  `ts_subtree_summarize_children` establishes; C10's `WFb`).  Decidable, evaluated on real dumps. -/
+  def tiles : Tree → Bool
+    | .mk d ks => (ks.isEmpty || decide (sumTb ks = d.padding.bytes + d.size.bytes)) && tilesL ks
+  def tilesL : List Tree → Bool
+    | [] => true
+    | k :: rest => tiles k && tilesL rest
+end
+
+mutual
+  /-- Largest `lookahead_bytes` in the tree (the `λ` of the bounds). -/
+  def maxLa : Tree → Nat
+    | .mk d ks => max d.lookahead (maxLaL ks)
+  def maxLaL : List Tree → Nat
+    | [] => 0
+    | k :: rest => max (maxLa k) (maxLaL rest)
+end
+
+mutual
+  def height : Tree → Nat
+    | .mk _ ks => heightL ks
+  def heightL : List Tree → Nat
+    | [] => 0
+    | k :: rest => max (height k + 1) (heightL rest)
+end
+
+/-- Items of a level that reach the window `[S, E]`. -/
+def reachL (xs : List (Nat × Tree)) (S E : Nat) : List (Nat × Tree) :=
+  xs.filter (fun x => reaches x.2 x.1 S E)
+
+/-- Zero-width items of a level (EOF leaf, zero-width external tokens, empty reductions). -/
+def zerosL (xs : List (Nat × Tree)) : Nat := (xs.filter (fun x => x.2.totalBytes == 0)).length
+
+/-- Sum over the levels `0 … h`. -/
+def reachTotal (t : Tree) (S E : Nat) : Nat → Nat
+  | 0 => (reachL (levelList t 0 0) S E).length
+  | h + 1 => reachTotal t S E h + (reachL (levelList t 0 (h + 1)) S E).length
+
+def zerosTotal (t : Tree) : Nat → Nat
+  | 0 => zerosL (levelList t 0 0)
+  | h + 1 => zerosTotal t h + zerosL (levelList t 0 (h + 1))
+
 end TsVerif.C12
